@@ -1,6 +1,7 @@
 import StamModel.Store
 import StamModel.Driver.Off
 import StamModel.Driver.Txt
+import StamModel.Driver.Dv
 open Stam
 namespace Driver
 
@@ -122,6 +123,7 @@ def stStep (s : State) (args : List String) : State × String :=
     | some n => let (r, s') := s.addRes id n; (s', showResp r)
     | none => (s, "bad-op")
   | ["addset", id] => let (r, s') := s.addSet id; (s', showResp r)
+  | ["addset", id, ks] => let (r, s') := s.addSet id ((ks.splitOn ",").filter (· ≠ "")); (s', showResp r)
   | ["adddata", set, did, key, val] =>
     let (r, s') := s.addData ⟨set, some key, some val, if did = "~" then none else some (parseRef did)⟩
     (s', showResp r)
@@ -149,6 +151,7 @@ def stStep (s : State) (args : List String) : State × String :=
       (s, match r with | some h => s!"h{h}" | none => "none")
   | ["stripann"] => (s.stripAnn, "ok -")
   | ["stripdata"] => (s.stripData, "ok -")
+  | "finddata" :: rest => (s, findDataCmd s rest)
   | ["obs"] => (s, observe s)
   | _ => (s, "bad-op")
 
